@@ -269,4 +269,16 @@ theorem decodeSeg_utf16_none {seg bs : BytesN} (hb : b64dec seg = some bs) (hu :
   · rfl
   · simp [hb, hu]
 
+theorem b64dec_some_no45 {seg bs : BytesN} (hb : b64dec seg = some bs) : ∀ c ∈ seg, c ≠ 45 := by
+  intro c hc h
+  subst h
+  rw [b64dec_bad seg 45 hc (by decide)] at hb
+  cases hb
+
+/-- lifting for the UTF-16 layer: base64 decodes, UTF-16 does not -/
+theorem dec_bad_utf16 (pre seg post bs : BytesN) (hne : seg ≠ []) (hb : b64dec seg = some bs)
+    (hu : utf16dec bs = none) : decode (pre ++ (38 :: seg ++ 45 :: post)) = none :=
+  dec_prefix_none (dec_bad_segment seg post hne (b64dec_some_no45 hb) (decodeSeg_utf16_none hb hu))
+    pre true none
+
 end GoImap.Utf7Lemmas
